@@ -74,7 +74,7 @@ pub fn state_case_g(text: &str, tts: &[TT], bridged: bool, seq: &[usize], grown:
     let n = tts.len();
     let mut out = vec![];
     let parser = AdfParser::default();
-    if parser.parse()(text).is_err() {
+    if !crate::fam::parse_into(&parser, text) {
         return vec![("parse".into(), "well-formed input rejected".into())];
     }
     adf_bdd::verif::set_budget(Some(STEP_BUDGET));
@@ -373,7 +373,7 @@ pub fn run_c14(run: &Run) {
     run.set_rule("states = ADF objects (native and bridged) of the named families, fresh and after every sequence of public calls up to the stated length (the 15-call alphabet of C11, so exports happen after the node table has grown); in each state both round trips are executed: serde JSON export/import + fix_import, and the string-encoded node list + ordering + root handles exactly as the web service's database layer stores them, rebuilt through Bdd::from(nodes) and Adf::from(..). Node table, roots and ordering must be identical; the re-imported store must satisfy the canonicity, memo and query invariants; every semantics answer of the re-imported object must equal the definition. CLI: --export then --import with each semantics flag on A(2); existing file / symlink / directory targets are never modified and the run still succeeds, also when the target appears while the CLI is blocked reading its input (the input is a FIFO fed by the harness). Objects whose shared dictionary grew after construction (a second parser on the same VarContainer) are exported too. Non-trivial: states reached by >= 1 call.");
     run.assume("call histories up to length 2 before the export; ADFs with <= 3 statements");
     let quick = run.quick();
-    let mut plan: Vec<(Source, usize)> = vec![(Source::FamCompact(fam_a(2)), 2), (Source::FamCompact(fam_f(3, 1)), 2), (if quick { Source::FamCompact(fam_f(3, 2)) } else { Source::Fam(fam_f(3, 2)) }, 1)];
+    let mut plan: Vec<(Source, usize)> = vec![(Source::FamCompact(fam_a(0)), 2), (Source::FamCompact(fam_a(2)), 2), (Source::FamCompact(fam_f(3, 1)), 2), (if quick { Source::FamCompact(fam_f(3, 2)) } else { Source::Fam(fam_f(3, 2)) }, 1)];
     if !quick {
         plan.push((Source::Fam(fam_s(run.seed)), 1));
         plan.push((Source::Fam(fam_f(4, 1)), 1));
@@ -421,14 +421,14 @@ pub fn run_c14(run: &Run) {
     // objects at scale: ring / sparse ADFs and a bridged object with a 2^17-node diagram; both round trips must
     // reproduce the node table and the grounded interpretation of the definition
     {
-        let mut items: Vec<(String, String, Vec<u8>, bool)> = vec![]; // name, text, grounded (declaration order), bridged
+        let mut items: Vec<(String, String, Vec<u8>, bool, bool)> = vec![]; // name, text, grounded (declaration order), bridged, 65 or more levels
         for k in 0..(if quick { 12u64 } else { 120 }) {
             let l = crate::mid::sparse(run.seed * 1000 + k * 7);
-            items.push((format!("sparse #{}", k), l.text(None, ("\n", "", "")), l.grounded(), k % 2 == 1));
+            items.push((format!("sparse #{}", k), l.text(None, ("\n", "", "")), l.grounded(), k % 2 == 1, false));
         }
         for k in 0..(if quick { 64u64 } else { 640 }) {
             let l = crate::mid::ring(7, (k * 7919 + run.seed) % crate::mid::ring_size(7));
-            items.push((format!("ring(7) #{}", k), l.text(None, ("", "", "")), l.grounded(), k % 2 == 0));
+            items.push((format!("ring(7) #{}", k), l.text(None, ("", "", "")), l.grounded(), k % 2 == 0, false));
         }
         {
             let m = 16usize;
@@ -442,17 +442,28 @@ pub fn run_c14(run: &Run) {
             }
             conds.push(f);
             let l = crate::large::LargeAdf { labels: labels.clone(), written: labels, conds, shape: "big" };
-            items.push(("OR of 16 products (2^17 nodes), bridged".into(), l.text(None, ("", "", "")), vec![U; 2 * m + 1], true));
+            items.push(("OR of 16 products (2^17 nodes), bridged".into(), l.text(None, ("", "", "")), vec![U; 2 * m + 1], true, false));
+        }
+        // one condition that is the conjunction of all statements: a diagram with as many levels as statements. Up to 64
+        // levels everything must hold; from 65 levels on the repair step recounts models in machine words (finding K3)
+        for n in [40usize, 64, 65, 70] {
+            let labels: Vec<String> = (0..n).map(|i| format!("d{:02}", i)).collect();
+            let mut conds = vec![crate::c13::deep_fm(0, n)];
+            conds.extend((1..n).map(|i| Fm::Atom(i - 1)));
+            let l = crate::large::LargeAdf { labels: labels.clone(), written: labels, conds, shape: "deep" };
+            for bridged in [false, true] {
+                items.push((format!("conjunction of all {} statements{}", n, if bridged { ", bridged" } else { "" }), l.text(None, ("", "", "")), vec![U; n], bridged, n >= 65));
+            }
         }
         let res = run.par_family(
-            &format!("objects at scale: {} (sparse 70-270 statements, ring(7), a 2^17-node bridged diagram), both round trips", items.len()),
+            &format!("objects at scale: {} (sparse 70-270 statements, ring(7), a 2^17-node bridged diagram, diagrams of 40-70 levels), both round trips", items.len()),
             items.len() as u64,
             || 0u64,
             |st, k| {
-                let (name, text, g, bridged) = &items[k as usize];
+                let (name, text, g, bridged, deep65) = &items[k as usize];
                 *st += 2;
                 run.heartbeat();
-                run.isolated_case(json!({"type": "persist-scale", "text": text, "grounded": g, "bridged": bridged}), name);
+                run.isolated_case(json!({"type": "persist-scale", "text": text, "grounded": g, "bridged": bridged, "levels_65_or_more": deep65}), name);
             },
             &|k| json!({"type": "persist-scale", "name": items[k as usize].0}),
         );
